@@ -177,12 +177,15 @@ def run(ctx):
     for fi in prog.functions.values():
         if isinstance(fi.node, ast.Lambda) or 'seed' not in fi.all_params() or fi.name == '__init__':
             continue
-        src = ast.unparse(fi.node)
-        if 'default_rng(seed)' in src and any(isinstance(n, ast.Call) and isinstance(n.func, ast.Attribute) and
-                                              isinstance(n.func.value, ast.Name) and n.func.value.id == 'rng'
-                                              for n in ast.walk(fi.node)
-                                              if not any(n in ast.walk(x) for x in ast.walk(fi.node)
-                                                         if isinstance(x, (ast.FunctionDef, ast.Lambda)) and x is not fi.node)):
+        # locals bound to default_rng(seed), and a method of such a generator called in the function's own body
+        gens = {t.id for st in ast.walk(fi.node) if isinstance(st, ast.Assign) and isinstance(st.value, ast.Call)
+                and isinstance(st.value.func, ast.Attribute) and st.value.func.attr == 'default_rng'
+                and len(st.value.args) == 1 and isinstance(st.value.args[0], ast.Name) and st.value.args[0].id == 'seed'
+                for t in st.targets if isinstance(t, ast.Name)}
+        nested = [x for x in ast.walk(fi.node) if isinstance(x, (ast.FunctionDef, ast.Lambda)) and x is not fi.node]
+        if gens and any(isinstance(n, ast.Call) and isinstance(n.func, ast.Attribute) and
+                        isinstance(n.func.value, ast.Name) and n.func.value.id in gens
+                        for n in ast.walk(fi.node) if not any(n in ast.walk(x) for x in nested)):
             drawers.add(fi.qual)
     n_calls = 0
     for cf in prog.functions.values():
@@ -221,8 +224,12 @@ def run(ctx):
         for st in ast.walk(fi.node):
             if isinstance(st, ast.Assign) and any(x is n for x in ast.walk(st.value)):
                 tg = st.targets[0]
-                if isinstance(tg, ast.Name) and tg.id == 't':
-                    ok = True
+                if isinstance(tg, ast.Name):
+                    # a local time stamp: every read of it feeds a *_stage_t timer (profiling only)
+                    loads = [x for x in ast.walk(fi.node) if isinstance(x, ast.Name) and x.id == tg.id and isinstance(x.ctx, ast.Load)]
+                    timers = [p for p in ast.walk(fi.node) if isinstance(p, ast.AugAssign) and isinstance(p.target, ast.Attribute)
+                              and p.target.attr.endswith('_stage_t')]
+                    ok = bool(loads) and all(any(x is y for p in timers for y in ast.walk(p.value)) for x in loads)
                 if isinstance(tg, ast.Attribute) and tg.attr == 't_start' and "'t_start'" in ast.unparse(st.value):
                     ok = True
             if isinstance(st, ast.AugAssign) and any(x is n for x in ast.walk(st.value)):
@@ -230,17 +237,6 @@ def run(ctx):
                     ok = True
         ctx.ob('RNG', 'wall-clock time reaches only the documented t_start default and the *_stage_t timers', fi, ok,
                {'use': ast.unparse(n)}, node=n)
-    # uses of the local name `t` in the backend: only timer arithmetic
-    cdb = ctx.func(B + '.collect_data_block')
-    bad = []
-    for st in ast.walk(cdb.node):
-        if isinstance(st, ast.Name) and st.id == 't' and isinstance(st.ctx, ast.Load):
-            par = [p for p in ast.walk(cdb.node) if isinstance(p, ast.AugAssign) and any(x is st for x in ast.walk(p))]
-            if not par or not (isinstance(par[0].target, ast.Attribute) and par[0].target.attr.endswith('_stage_t')):
-                bad.append(st.lineno)
-    ctx.ob('RNG', 'the wall-clock sample `t` is read only by the stage timers', cdb, not bad, {'other_reads_at': bad},
-           node=cdb.node, construct='reads of t')
-
     # ---- D3 per-recording resets, no module-level state
     ctx.clause = 'D3'
     r, I = ctx.run(rec, no_inline=RECORD_NO_INLINE)
